@@ -406,7 +406,11 @@ func runSchedCaseKeep(c schedCase, st *schedStats, keep func(sig string) bool) *
 			if c.Reqs[i] == "hangup" {
 				continue
 			}
-			for fid := uint64(1); fid <= 10; fid++ {
+			fids := []uint64{1, 2, 3, 4, 5, 6, 7, 8, 9, 10}
+			if strings.HasPrefix(c.Reqs[i], "walk-") || strings.HasPrefix(c.Reqs[i], "clone-") {
+				fids = append(fids, 20) // the fid the request bound
+			}
+			for _, fid := range fids {
 				before := fs.Seq()
 				r, err := s.Call(withTag(tGetattr(fid), uint16(200+fid)))
 				// whatever the answer: the File behind the fid must know where its object is
